@@ -10,6 +10,8 @@ import Gts.Lemmas.Locate
 import Gts.Lemmas.MarksOps
 import Gts.Lemmas.MarkGuardOps
 import Gts.Lemmas.Record
+import Gts.Bridge.SeqReverse
+import Gts.Bridge.SeqComplement
 namespace Gts.C05
 open Gts Loc
 
@@ -425,5 +427,36 @@ example :
     ∀ f ∈ s.feats, wf (complement f.loc) = true ∧ reverseAbs (complement f.loc) s.len = false ∧
       denIn s.len (den f.loc) ∧ (den f.loc).Nodup := by
   decide +kernel
+
+/-! ### the statements above, for the code AS IT IS WRITTEN NOW
+
+`Gts.Gen.seqReverse` / `seqComplement` are regenerated from sequence.go / nucleotide.go on every run
+(go2lean/gseq.go); `Gts/Bridge/SeqReverse.lean` / `SeqComplement.lean` prove them equal to the model for every input. -/
+
+/-- **`gts.Reverse` as written** never panics, flips the residues and re-locates every feature by `Reverse(len)`
+(no feature lost or duplicated); the metadata is untouched -/
+theorem gen_reverse_spec {ι : Type} (info : ι) (s : Seq) :
+    ∃ ff, Gen.seqReverse info s.feats s.bytes = .ok (info, ff, s.bytes.reverse) ∧
+      ff.Perm (s.feats.map fun f => { f with loc := f.loc.reverse s.len }) :=
+  ⟨_, Bridge.seqReverse_eq info s, reverse_table_perm s⟩
+
+/-- **`gts.Complement` as written** never panics (the `new[j]` of `replaceBytes` is always in range for the two
+alphabets of nucleotide.go), complements byte by byte and passes EVERY feature location through
+`Location.Complement`, table order kept -/
+theorem gen_complement_spec {ι : Type} (info : ι) (s : Seq) :
+    Gen.seqComplement info s.feats s.bytes =
+      .ok (info, s.feats.map (fun f => { f with loc := f.loc.complement }), s.bytes.map Nuc.complementByte) := by
+  rw [Bridge.seqComplement_eq, seq_complement_total]
+  rfl
+
+/-- **`gts.Transcribe` as written** never panics and transcribes byte by byte; features and metadata as they are -/
+theorem gen_transcribe_spec {ι : Type} (info : ι) (s : Seq) :
+    Gen.seqTranscribe info s.feats s.bytes = .ok (info, s.feats, s.bytes.map Nuc.transcribeByte) := by
+  rw [Bridge.seqTranscribe_eq, C18.transcribe_bytewise]
+  rfl
+
+-- non-vacuity: the theorems have no hypotheses; a concrete record
+example : Gen.seqComplement (ι := Unit) () [⟨"gene", .point 1, []⟩] [65, 67] =
+    .ok ((), [⟨"gene", .compl (.point 1), []⟩], [84, 71]) := gen_complement_spec () ⟨[⟨"gene", .point 1, []⟩], [65, 67]⟩
 
 end Gts.C05
